@@ -56,7 +56,7 @@
 (*           harness virtualises them per instance (installs rngctx[i]     *)
 (*           before every call on i, reads the state back afterwards).     *)
 (*           Labels are naturals; a stochastic iteration from label v      *)
-(*           leaves label v+1.  RngLabelsFunctional (checked by TLC)       *)
+(*           leaves label v+1 (v+1001 if it re-clipped, see Step).  RngLabelsFunctional (checked by TLC)       *)
 (*           states that a label is never consumed from two different      *)
 (*           positions, which makes the labelling sound.                   *)
 (* acting    instance that performed the last action (0 = harness)         *)
@@ -174,7 +174,8 @@ Step(i) ==
          (* and for generations <= 0; otherwise it draws random numbers (DE kinds) / rebuilds the simplex (NM)   *)
          perturb == redeco /\ s.gens >= 1 /\ s.cfg.rg /\ kind # "PW"
          d == IF Stochastic THEN rngctx[i] ELSE 0
-         r2 == IF Stochastic THEN rngctx[i] + 1 ELSE rngctx[i]
+         (* a perturbed iteration consumes extra random numbers: it leaves a generator state of its own *)
+         r2 == IF Stochastic THEN rngctx[i] + 1 + (IF perturb THEN 1000 ELSE 0) ELSE rngctx[i]
          fcell == IF redeco THEN ncell ELSE s.fc
          wcell == IF redeco THEN ncell ELSE s.wfc
          c1 == IF redeco THEN [cell EXCEPT ![ncell] = cell[s.fc]] ELSE cell
